@@ -262,6 +262,15 @@ func cidTok(c cid.Cid) string {
 	return strconv.Itoa(cidIdx(c))
 }
 
+// cidArgTok names a cid that is the subject of an operation: 998 = the undefined cid (a handler that
+// goes on after a failed decode passes cid.Undef).
+func cidArgTok(c cid.Cid) string {
+	if !c.Defined() {
+		return "998"
+	}
+	return strconv.Itoa(cidIdx(c))
+}
+
 func metaTok(m map[string]string) string {
 	if len(m) == 0 {
 		return "-"
@@ -343,7 +352,7 @@ func pinTok(p *api.Pin, w *expWindow) string {
 		ref = cidTok(*p.Reference)
 	}
 	return strings.Join([]string{
-		cidTok(p.Cid), typeTok(p.Type),
+		cidArgTok(p.Cid), typeTok(p.Type),
 		fmt.Sprintf("%d:%d", p.ReplicationFactorMin, p.ReplicationFactorMax),
 		strconv.Itoa(nameIdx(p.Name)), modeTok(p.Mode), strconv.Itoa(int(p.MaxDepth)),
 		strconv.FormatUint(p.ShardSize, 10), peersTok(p.Allocations), w.tok(p.ExpireAt),
